@@ -8,8 +8,8 @@ FAST = ["targets/audio_metrics.cpp"]
 def jobs(tier):
     q = tier == "quick"
     return [
-        Job("c09_loss", "flt-asan", "enumerate", workers=W, enum_stride=64 if q else 1, maxtime=40 if q else 1500, fastsources=FAST, case_timeout=300),
-        Job("c09_loss", "flt-asan", "random", workers=W, cases=30 if q else 500, maxtime=40 if q else 900, fastsources=FAST, case_timeout=300),
+        Job("c09_loss", "flt-asan", "enumerate", workers=W, enum_stride=64 if q else 1, maxtime=40 if q else 1500, fastsources=FAST, case_timeout=300, refs=("ref-flt",)),
+        Job("c09_loss", "flt-asan", "random", workers=W, cases=30 if q else 500, maxtime=40 if q else 900, fastsources=FAST, case_timeout=300, refs=("ref-flt",)),
     ]
 
 
@@ -21,14 +21,17 @@ PROP = dict(
          "bursts of 20 ms .. 10 s; (FEC) periodic single losses over 90-140 packets. Call shapes: whole-packet concealment, 2.5-20 ms pieces, FEC from the "
          "next packet, FEC with a two-packet frame_size. Non-trivial = at least one loss followed by at least one reception; distinct = (configuration, pattern).",
     required_labels={"any": {"c09_loss/plc-whole": 50, "c09_loss/plc-in-pieces": 5, "c09_loss/fec-with-lbrr": 20, "c09_loss/reconvergence-checked": 50,
-                             "c09_loss/resume-peak-checked": 50, "c09_loss/decay-checked": 5, "c09_loss/fec-aggregate-checked": 3, "c09_loss/burst>=1s": 5}},
+                             "c09_loss/resume-peak-checked": 50, "c09_loss/decay-checked": 5, "c09_loss/fec-aggregate-checked": 3, "c09_loss/burst>=1s": 5, "c09_loss/decay-vs-frozen-checked": 5, "c09_loss/reconvergence-vs-frozen-checked": 50, "c09_loss/fec-vs-frozen-checked": 5}},
     exhaustive_parts={"thorough": ["all 4096 loss patterns over a 12-packet window x 8 configurations (SILK/hybrid/CELT/auto, 2.5-40 ms, mono/stereo, FEC on/off)"],
                       "quick": ["1/64 stratified slice of the pattern x configuration space"]},
     assumptions=["Level bounds (calib/C09.json) were measured on the unchanged tree, whose decoder equals the frozen snapshot; margins >= 2x.",
                  "The decay clause applies to MDCT-only streams with speech-like (non-stationary) input. The MDCT PLC decays to its background-noise estimate (the signal itself "
                  "for stationary input) and the speech layer adds comfort noise (its level estimate is also trained by the first decoded frame), so no decay is asserted there; "
                  "consequently a change of the SILK PLC attenuation constants alone is not detected by this check (sensitivity log).",
-                 "FEC superiority is asserted on the aggregate over >= 20 single losses with LBRR available, never per frame."],
+                 "FEC superiority is asserted on the aggregate over >= 20 single losses with LBRR available, never per frame.",
+                 "One-sided clauses relative to the frozen decoder fed the identical call sequence (per-case calibration): concealed peak <= 3x, RMS after >= 1 s of loss <= 2x, "
+                 "aggregate FEC error energy <= 2x, and wherever the frozen decoder has re-converged to >= 30 dB in a 200 ms window the tree must be at >= 18 dB. "
+                 "A change that makes concealment better than the frozen decoder never trips them."],
 )
 
 TEXT = dict(
